@@ -3,6 +3,7 @@
 // zoo(w, which, v) builds the node(s) of factory number `which` and reports them to the visitor v:
 //    v.template node<I>(n)          every node / form object, with its interface type I
 //    v.operands(ok)                 conjunction of "accessor X returns the argument given for X" for that node
+//    v.generative()                 the factory is of the make_ family: every call yields a fresh node
 //    v.typed(n, expected)           expected type of an expression node; nullptr = no type was given: type() must throw logic_error
 #ifndef VP_ZOO_H
 #define VP_ZOO_H
@@ -18,6 +19,13 @@ namespace zoo {
       const ipr::String* S[2];
       const ipr::Name* N[2];
       impl::Region* reg;
+      struct Owned { void* p; void (*del)(void*); }; Owned owned[64]; int nowned = 0;      // harness-owned helper objects, released before the units and the Lexicon
+      template<class T> T* own(T* p) { if (nowned < 64) owned[nowned++] = { p, [](void* q) { delete static_cast<T*>(q); } }; return p; }
+      ~World() { while (nowned > 0) { --nowned; owned[nowned].del(owned[nowned].p); } }
+      bool concrete = false; unsigned tick = 0;        // concrete mode: picks are a deterministic counter (used for churn)
+      unsigned pick(unsigned n) { return concrete ? (tick++ % n) : vp_pick(n); }
+      uint64_t nd() { return concrete ? (0x9E3779B97F4A7C15ull * ++tick) : nondet_ulong(); }
+      bool flag() { return concrete ? (tick++ & 1) != 0 : vp_flag(); }
       World() {
          E[0] = &lx.true_value(); E[1] = lx.make_literal(lx.int_type(), u8"42"); E[2] = &lx.nullptr_value();
          T[0] = &lx.int_type(); T[1] = &lx.get_pointer(lx.char_type()); T[2] = &lx.bool_type();
@@ -27,13 +35,13 @@ namespace zoo {
          reg = unit.global_region();
       }
       // symbolic picks (two distinct candidates each, so that a swapped pair is visible)
-      const ipr::Expr& e() { return *E[vp_pick(2)]; }
-      const ipr::Type& t() { return *T[vp_pick(2)]; }
-      const ipr::Identifier& id() { return *I[vp_pick(2)]; }
-      const ipr::String& s() { return *S[vp_pick(2)]; }
-      const ipr::Name& n() { return *N[vp_pick(2)]; }
+      const ipr::Expr& e() { return *E[pick(2)]; }
+      const ipr::Type& t() { return *T[pick(2)]; }
+      const ipr::Identifier& id() { return *I[pick(2)]; }
+      const ipr::String& s() { return *S[pick(2)]; }
+      const ipr::Name& n() { return *N[pick(2)]; }
       // optional type: absent, T[0] or T[1]
-      Optional<ipr::Type> ot(const ipr::Type*& expected) { unsigned k = vp_pick(3); expected = k ? T[k - 1] : nullptr; return k ? Optional<ipr::Type>{ *T[k - 1] } : Optional<ipr::Type>{ }; }
+      Optional<ipr::Type> ot(const ipr::Type*& expected) { unsigned k = pick(3); expected = k ? T[k - 1] : nullptr; return k ? Optional<ipr::Type>{ *T[k - 1] } : Optional<ipr::Type>{ }; }
    };
 
    template<class X, class Y> inline bool same(const X& x, const Y& y) { return static_cast<const void*>(&x) == static_cast<const void*>(&y); }
@@ -64,26 +72,31 @@ namespace zoo {
 
    // ---- pattern helpers
    template<class I, class V, class F> void unary_opt(World& w, V& v, F make) {
+      v.generative();
       const ipr::Expr& a = w.e(); const ipr::Type* et; auto ty = w.ot(et);
       const I& n = *make(a, ty);
       v.template node<I>(n); v.operands(same(n.operand(), a)); v.typed(n, et);
    }
    template<class I, class V, class F> void unary_req(World& w, V& v, F make) {
+      v.generative();
       const ipr::Expr& a = w.e(); const ipr::Type& ty = w.t();
       const I& n = *make(a, ty);
       v.template node<I>(n); v.operands(same(n.operand(), a)); v.typed(n, &ty);
    }
    template<class I, class V, class F> void binary_opt(World& w, V& v, F make) {
+      v.generative();
       const ipr::Expr& a = w.e(); const ipr::Expr& b = w.e(); const ipr::Type* et; auto ty = w.ot(et);
       const I& n = *make(a, b, ty);
       v.template node<I>(n); v.operands(same(n.first(), a) && same(n.second(), b)); v.typed(n, et);
    }
    template<class I, class V, class F> void cast(World& w, V& v, F make) {
+      v.generative();
       const ipr::Type& ty = w.t(); const ipr::Expr& a = w.e();
       const I& n = *make(ty, a);
       v.template node<I>(n); v.operands(same(n.first(), ty) && same(n.second(), a) && same(n.expr(), a)); v.typed(n, &ty);      // a cast has its target type
    }
    template<class I, class V, class F> void conversion(World& w, V& v, F make) {
+      v.generative();
       const ipr::Expr& a = w.e(); const ipr::Type& to = w.t(); const ipr::Type& res = w.t();
       const I& n = *make(a, to, res);
       v.template node<I>(n); v.operands(same(n.first(), a) && same(n.second(), to)); v.typed(n, &res);
@@ -103,55 +116,55 @@ namespace zoo {
       ZOO_CONVERSIONS(ZOO_CASE_CO)
       // ---------------- individually described factories
 #define ZCASE if (which == k++)
-      ZCASE { const ipr::Expr& a = w.e(); const ipr::Array_delete& n = *lx.make_array_delete(a); v.template node<ipr::Array_delete>(n); v.operands(same(n.operand(), a) && same(n.storage(), a)); v.typed(n, nullptr); return; }
-      ZCASE { const ipr::Expr& a = w.e(); const ipr::Delete& n = *lx.make_delete(a); v.template node<ipr::Delete>(n); v.operands(same(n.operand(), a) && same(n.storage(), a)); v.typed(n, nullptr); return; }
-      ZCASE { const ipr::Expr& a = w.e(); const ipr::Restriction& n = *lx.make_restriction(a); v.template node<ipr::Restriction>(n); v.operands(same(n.operand(), a)); v.typed(n, &lx.bool_type()); return; }
-      ZCASE { uint64_t d = nondet_ulong() & 0xffffffffu; const ipr::Expr& a = w.e(); const ipr::Type* et; auto ty = w.ot(et);
+      ZCASE { v.generative(); const ipr::Expr& a = w.e(); const ipr::Array_delete& n = *lx.make_array_delete(a); v.template node<ipr::Array_delete>(n); v.operands(same(n.operand(), a) && same(n.storage(), a)); v.typed(n, nullptr); return; }
+      ZCASE { v.generative(); const ipr::Expr& a = w.e(); const ipr::Delete& n = *lx.make_delete(a); v.template node<ipr::Delete>(n); v.operands(same(n.operand(), a) && same(n.storage(), a)); v.typed(n, nullptr); return; }
+      ZCASE { v.generative(); const ipr::Expr& a = w.e(); const ipr::Restriction& n = *lx.make_restriction(a); v.template node<ipr::Restriction>(n); v.operands(same(n.operand(), a)); v.typed(n, &lx.bool_type()); return; }
+      ZCASE { uint64_t d = w.nd() & 0xffffffffu; const ipr::Expr& a = w.e(); const ipr::Type* et; auto ty = w.ot(et);
               const ipr::Enclosure& n = *lx.make_enclosure(ipr::Delimiter(d), a, ty); v.template node<ipr::Enclosure>(n);
               v.operands(same(n.expr(), a) && same(n.operand(), a) && (uint64_t)(unsigned)n.delimiters() == d); v.typed(n, et); return; }
-      ZCASE { const ipr::Type& ty = w.t(); const ipr::Enclosure& enc = *lx.make_enclosure(ipr::Delimiter::Paren, w.e()); const ipr::Enclosure& enc2 = *lx.make_enclosure(ipr::Delimiter::Brace, w.e());
-              const ipr::Enclosure& pick = vp_flag() ? enc : enc2;
+      ZCASE { v.generative(); const ipr::Type& ty = w.t(); const ipr::Enclosure& enc = *lx.make_enclosure(ipr::Delimiter::Paren, w.e()); const ipr::Enclosure& enc2 = *lx.make_enclosure(ipr::Delimiter::Brace, w.e());
+              const ipr::Enclosure& pick = w.flag() ? enc : enc2;
               const ipr::Construction& n = *lx.make_construction(ty, pick); v.template node<ipr::Construction>(n); v.operands(same(n.arguments(), pick) && same(n.operand(), pick)); v.typed(n, &ty); return; }
-      ZCASE { const ipr::Name& nm = w.n(); const ipr::Type* et; auto ty = w.ot(et); const ipr::Id_expr& n = *lx.make_id_expr(nm, ty);
+      ZCASE { v.generative(); const ipr::Name& nm = w.n(); const ipr::Type* et; auto ty = w.ot(et); const ipr::Id_expr& n = *lx.make_id_expr(nm, ty);
               v.template node<ipr::Id_expr>(n); v.operands(same(n.name(), nm) && same(n.operand(), nm) && !n.resolution().is_valid()); v.typed(n, et); return; }
-      ZCASE { impl::Var* d = w.reg->declare_var(w.n(), w.t()); const ipr::Id_expr& n = *lx.make_id_expr(*d);
+      ZCASE { v.generative(); impl::Var* d = w.reg->declare_var(w.n(), w.t()); const ipr::Id_expr& n = *lx.make_id_expr(*d);
               v.template node<ipr::Id_expr>(n); v.operands(same(n.name(), d->name()) && n.resolution().is_valid() && same(n.resolution().get(), *d)); v.typed(n, &static_cast<const ipr::Var&>(*d).type()); return; }
-      ZCASE { const ipr::Identifier& i = w.id(); const ipr::Type* et; auto ty = w.ot(et); const ipr::Label& n = *lx.make_label(i, ty);
+      ZCASE { v.generative(); const ipr::Identifier& i = w.id(); const ipr::Type* et; auto ty = w.ot(et); const ipr::Label& n = *lx.make_label(i, ty);
               v.template node<ipr::Label>(n); v.operands(same(n.name(), i) && same(n.operand(), i)); v.typed(n, et); return; }
-      ZCASE { impl::Expr_list* x = lx.make_expr_list(); unsigned cnt = vp_pick(3); const ipr::Expr* el[2];
+      ZCASE { v.generative(); impl::Expr_list* x = lx.make_expr_list(); unsigned cnt = w.pick(3); const ipr::Expr* el[2];
               for (unsigned i = 0; i < cnt; ++i) { el[i] = &w.e(); x->push_back(el[i]); }
               const ipr::Expr_list& n = *x; v.template node<ipr::Expr_list>(n);
               bool ok = n.size() == cnt && same(n.elements(), n.operand()); for (unsigned i = 0; i < cnt; ++i) ok = ok && &*n.elements().position(i) == el[i];
               v.operands(ok); return; }
-      ZCASE { const ipr::Phantom& n = *lx.make_phantom(); v.template node<ipr::Phantom>(n); v.operands(true); v.typed(n, nullptr); return; }
-      ZCASE { const ipr::Type& ty = w.t(); const ipr::Phantom& n = *lx.make_phantom(ty); v.template node<ipr::Phantom>(n); v.operands(true); v.typed(n, &ty); return; }
-      ZCASE { const ipr::Type& ty = w.t(); const ipr::Eclipsis& n = *lx.make_eclipsis(ty); v.template node<ipr::Eclipsis>(n); v.operands(true); v.typed(n, &ty); return; }
-      ZCASE { const ipr::String& s = w.s(); const ipr::Literal& l = lx.get_literal(w.t(), w.s()); const ipr::Annotation& n = *new impl::Annotation(s, l);   /* expr_factory::make_annotation is declared but not defined by the library */
+      ZCASE { v.generative(); const ipr::Phantom& n = *lx.make_phantom(); v.template node<ipr::Phantom>(n); v.operands(true); v.typed(n, nullptr); return; }
+      ZCASE { v.generative(); const ipr::Type& ty = w.t(); const ipr::Phantom& n = *lx.make_phantom(ty); v.template node<ipr::Phantom>(n); v.operands(true); v.typed(n, &ty); return; }
+      ZCASE { v.generative(); const ipr::Type& ty = w.t(); const ipr::Eclipsis& n = *lx.make_eclipsis(ty); v.template node<ipr::Eclipsis>(n); v.operands(true); v.typed(n, &ty); return; }
+      ZCASE { const ipr::String& s = w.s(); const ipr::Literal& l = lx.get_literal(w.t(), w.s()); const ipr::Annotation& n = *w.own(new impl::Annotation(s, l));   /* expr_factory::make_annotation is declared but not defined by the library */
               v.template node<ipr::Annotation>(n); v.operands(same(n.name(), s) && same(n.value(), l) && same(n.first(), s) && same(n.second(), l)); return; }
-      ZCASE { const ipr::Type& ty = w.t(); const ipr::String& s = w.s(); const ipr::Literal& n = vp_flag() ? *lx.make_literal(ty, s) : lx.get_literal(ty, s.characters());
+      ZCASE { const ipr::Type& ty = w.t(); const ipr::String& s = w.s(); const ipr::Literal& n = w.flag() ? *lx.make_literal(ty, s) : lx.get_literal(ty, s.characters());
               v.template node<ipr::Literal>(n); v.operands(same(n.first(), ty) && same(n.second(), s) && same(n.string(), s)); v.typed(n, &ty); return; }
-      ZCASE { const ipr::Expr& f = w.e(); impl::Expr_list* x = lx.make_expr_list(); x->push_back(&w.e()); const ipr::Type* et; auto ty = w.ot(et);
+      ZCASE { v.generative(); const ipr::Expr& f = w.e(); impl::Expr_list* x = lx.make_expr_list(); x->push_back(&w.e()); const ipr::Type* et; auto ty = w.ot(et);
               const ipr::Call& n = *lx.make_call(f, *x, ty); v.template node<ipr::Call>(n); v.operands(same(n.function(), f) && same(n.args(), *x) && same(n.first(), f) && same(n.second(), *x)); v.typed(n, et); return; }
-      ZCASE { const ipr::Expr& f = w.e(); impl::Expr_list* x = lx.make_expr_list(); x->push_back(&w.e());
-              const ipr::Template_id& n = vp_flag() ? *lx.make_template_id(f, *x) : lx.get_template_id(f, *x);
+      ZCASE { v.generative(); const ipr::Expr& f = w.e(); impl::Expr_list* x = lx.make_expr_list(); x->push_back(&w.e());
+              const ipr::Template_id& n = w.flag() ? *lx.make_template_id(f, *x) : lx.get_template_id(f, *x);
               v.template node<ipr::Template_id>(n); v.operands(same(n.template_name(), f) && same(n.args(), *x) && same(n.first(), f) && same(n.second(), *x)); return; }
-      ZCASE { const ipr::Expr& a = lx.make_id_expr(w.n(), w.t())[0]; const ipr::Expr& b = *lx.make_id_expr(w.n(), *w.T[2]); const ipr::Rewrite& n = *lx.make_rewrite(a, b);
+      ZCASE { v.generative(); const ipr::Expr& a = lx.make_id_expr(w.n(), w.t())[0]; const ipr::Expr& b = *lx.make_id_expr(w.n(), *w.T[2]); const ipr::Rewrite& n = *lx.make_rewrite(a, b);
               v.template node<ipr::Rewrite>(n); v.operands(same(n.source(), a) && same(n.target(), b) && same(n.first(), a) && same(n.second(), b)); v.typed(n, w.T[2]); return; }          // borrows the target's type
-      ZCASE { uint64_t op = nondet_ulong() & 0xffffffffu; const ipr::Expr& a = w.e(); const ipr::Expr& b = w.e(); const ipr::Type* et; auto ty = w.ot(et);
+      ZCASE { uint64_t op = w.nd() & 0xffffffffu; const ipr::Expr& a = w.e(); const ipr::Expr& b = w.e(); const ipr::Type* et; auto ty = w.ot(et);
               const ipr::Binary_fold& n = *lx.make_binary_fold(ipr::Category_code(op), a, b, ty); v.template node<ipr::Binary_fold>(n);
               v.operands(same(n.first(), a) && same(n.second(), b) && (uint64_t)(unsigned)n.operation() == op); v.typed(n, et); return; }
-      ZCASE { impl::Where* x = lx.make_where(*w.reg); const ipr::Where& n = *x; v.template node<ipr::Where>(n);
+      ZCASE { v.generative(); impl::Where* x = lx.make_where(*w.reg); const ipr::Where& n = *x; v.template node<ipr::Where>(n);
               bool unset_ok = vp_outcome([&] { n.main(); }) == 1;
               const ipr::Expr& r = *lx.make_id_expr(w.n(), w.t()); const ipr::Type& rt = r.type(); x->result = &r;
               v.operands(unset_ok && same(n.main(), r) && same(n.first(), r) && same(n.attendant(), x->region.bindings()) && same(x->region.enclosing(), *w.reg)); v.typed(n, &rt); return; }                   // borrows main()'s type
-      ZCASE { const ipr::Expr& a = *lx.make_id_expr(w.n(), w.t()); const ipr::Expr& b = w.e(); const ipr::Where& n = *lx.make_where(a, b);
+      ZCASE { v.generative(); const ipr::Expr& a = *lx.make_id_expr(w.n(), w.t()); const ipr::Expr& b = w.e(); const ipr::Where& n = *lx.make_where(a, b);
               v.template node<ipr::Where>(n); v.operands(same(n.main(), a) && same(n.attendant(), b)); v.typed(n, &a.type()); return; }
-      ZCASE { const ipr::Expr& a = w.e(); impl::General_substitution* g = lx.make_general_substitution(); impl::Instantiation* x = lx.make_instantiation(a, *g); const ipr::Instantiation& n = *x;
+      ZCASE { v.generative(); const ipr::Expr& a = w.e(); impl::General_substitution* g = lx.make_general_substitution(); impl::Instantiation* x = lx.make_instantiation(a, *g); const ipr::Instantiation& n = *x;
               v.template node<ipr::Instantiation>(n); bool ok = same(n.pattern(), a) && same(n.substitution(), *g) && !n.instance().is_valid();
               bool throws = vp_outcome([&] { n.type(); }) == 1;
               const ipr::Expr& inst = *lx.make_id_expr(w.n(), w.t()); x->result = &inst;
               v.operands(ok && throws && same(n.instance().get(), inst)); v.typed(n, &inst.type()); return; }
-      ZCASE { const ipr::Construction& c = *lx.make_construction(w.t(), *lx.make_enclosure(ipr::Delimiter::Paren, w.e())); bool placed = vp_flag(); impl::Expr_list* x = lx.make_expr_list();
+      ZCASE { v.generative(); const ipr::Construction& c = *lx.make_construction(w.t(), *lx.make_enclosure(ipr::Delimiter::Paren, w.e())); bool placed = w.flag(); impl::Expr_list* x = lx.make_expr_list();
               const ipr::Type* et; auto ty = w.ot(et);
               impl::New* nn = lx.make_new(placed ? Optional<ipr::Expr_list>{ *x } : Optional<ipr::Expr_list>{ }, c, ty); const ipr::New& n = *nn; v.template node<ipr::New>(n);
               bool ok = same(n.initializer(), c) && same(n.second(), c) && n.placement().is_valid() == placed && (!placed || same(n.placement().get(), *x)) && !n.global_requested();
@@ -159,94 +172,94 @@ namespace zoo {
       ZCASE { const ipr::Expr& a = w.e(); const ipr::Expr& b = w.e(); const ipr::Expr& c = w.e(); const ipr::Type* et; auto ty = w.ot(et);
               const ipr::Conditional& n = *lx.make_conditional(a, b, c, ty); v.template node<ipr::Conditional>(n);
               v.operands(same(n.condition(), a) && same(n.then_expr(), b) && same(n.else_expr(), c) && same(n.first(), a) && same(n.second(), b) && same(n.third(), c)); v.typed(n, et); return; }
-      ZCASE { uint64_t lvl = nondet_ulong(); impl::Mapping* m = lx.make_mapping(*w.reg, Mapping_level{ lvl }); const ipr::Mapping& n = *m; v.template node<ipr::Mapping>(n);
+      ZCASE { v.generative(); uint64_t lvl = w.nd(); impl::Mapping* m = lx.make_mapping(*w.reg, Mapping_level{ lvl }); const ipr::Mapping& n = *m; v.template node<ipr::Mapping>(n);
               bool ok = util::rep(n.parameters().level()) == lvl && same(n.parameters().region().enclosing(), *w.reg) && n.parameters().size() == 0 && vp_outcome([&] { n.result(); }) == 1;
               const ipr::Expr& body = w.e(); m->body = &body; v.operands(ok && same(n.result(), body)); v.typed(n, nullptr);
               v.template node<ipr::Parameter_list>(n.parameters()); return; }
-      ZCASE { uint64_t lvl = nondet_ulong(); impl::Lambda* m = lx.make_lambda(*w.reg, Mapping_level{ lvl }); const ipr::Lambda& n = *m; v.template node<ipr::Lambda>(n);
+      ZCASE { v.generative(); uint64_t lvl = w.nd(); impl::Lambda* m = lx.make_lambda(*w.reg, Mapping_level{ lvl }); const ipr::Lambda& n = *m; v.template node<ipr::Lambda>(n);
               bool ok = util::rep(n.parameters().level()) == lvl && same(n.parameters().region().enclosing(), *w.reg) && !n.target().is_valid() && !n.requirement().is_valid() && !n.eh_specification().is_valid()
                         && n.attributes().size() == 0 && n.captures().size() == 0 && n.specifiers() == ipr::Lambda_specifiers::None && vp_outcome([&] { n.type(); }) == 1;
               impl::Closure* c = lx.make_closure(*w.reg); m->typing = c; const ipr::Type& vt = w.t(); m->value_type = &vt;
               v.operands(ok && same(n.type(), *c) && same(n.target().get(), vt)); return; }
-      ZCASE { uint64_t lvl = nondet_ulong(); const ipr::Requires& n = *lx.make_requires(*w.reg, Mapping_level{ lvl }); v.template node<ipr::Requires>(n);
+      ZCASE { v.generative(); uint64_t lvl = w.nd(); const ipr::Requires& n = *lx.make_requires(*w.reg, Mapping_level{ lvl }); v.template node<ipr::Requires>(n);
               v.operands(util::rep(n.parameters().level()) == lvl && n.body().size() == 0 && same(n.parameters().region().enclosing(), *w.reg)); v.typed(n, &lx.bool_type()); return; }
       ZCASE { const ipr::Name& nm = w.n(); const ipr::Type& ty = w.t(); const ipr::Symbol& n = lx.get_symbol(nm, ty); v.template node<ipr::Symbol>(n); v.operands(same(n.name(), nm) && same(n.operand(), nm)); v.typed(n, &ty); return; }
       ZCASE { const ipr::Identifier& i = w.id(); const ipr::Symbol& n = lx.get_label(i); v.template node<ipr::Symbol>(n); v.operands(same(n.name(), i)); v.typed(n, &lx.void_type()); return; }
       ZCASE { const ipr::Type& ty = w.t(); const ipr::Symbol& n = lx.get_this(ty); v.template node<ipr::Symbol>(n);
               auto nm = util::view<ipr::Identifier>(n.name()); v.operands(nm && nm->string().characters() == util::word_view(u8"this")); v.typed(n, &ty); return; }
-      ZCASE { const ipr::String& s = w.s(); const ipr::Phased_evaluation& n = *lx.make_asm(s); v.template node<ipr::Phased_evaluation>(n);
+      ZCASE { v.generative(); const ipr::String& s = w.s(); const ipr::Phased_evaluation& n = *lx.make_asm(s); v.template node<ipr::Phased_evaluation>(n);
               auto a = util::view<ipr::Asm>(n.expression()); v.operands(a && same(a->text(), s) && same(a->operand(), s) && n.phases() == ipr::Phases::Code_generation);
               v.typed(n, &lx.void_type()); if (a) { v.template node<ipr::Asm>(*a); v.typed(*a, &lx.void_type()); } return; }
-      ZCASE { const ipr::Expr& c = w.e(); bool with = vp_flag(); const ipr::String& s = w.s();
+      ZCASE { const ipr::Expr& c = w.e(); bool with = w.flag(); const ipr::String& s = w.s();
               const ipr::Phased_evaluation& n = *lx.make_static_assert(c, with ? Optional<ipr::String>{ s } : Optional<ipr::String>{ }); v.template node<ipr::Phased_evaluation>(n);
               auto a = util::view<ipr::Static_assert>(n.expression());
               v.operands(a && same(a->condition(), c) && a->message().is_valid() == with && (!with || same(a->message().get(), s)) && n.phases() == ipr::Phases::Elaboration);
               v.typed(n, &lx.bool_type()); if (a) { v.template node<ipr::Static_assert>(*a); v.typed(*a, &lx.bool_type()); } return; }
-      ZCASE { const ipr::Expr& a = w.e(); uint64_t ph = nondet_ulong() & 0xffffffffu; const ipr::Expr& typed = *lx.make_id_expr(w.n(), w.t()); bool use_typed = vp_flag(); const ipr::Expr& x = use_typed ? typed : a;
+      ZCASE { v.generative(); const ipr::Expr& a = w.e(); uint64_t ph = w.nd() & 0xffffffffu; const ipr::Expr& typed = *lx.make_id_expr(w.n(), w.t()); bool use_typed = w.flag(); const ipr::Expr& x = use_typed ? typed : a;
               const ipr::Phased_evaluation& n = *lx.make_phased_evaluation(x, ipr::Phases(ph)); v.template node<ipr::Phased_evaluation>(n);
               v.operands(same(n.expression(), x) && (uint64_t)(unsigned)n.phases() == ph); v.typed(n, &x.type()); return; }
       // ---- statements
-      ZCASE { impl::Break* b = lx.make_break(); const ipr::Break& n = *b; v.template node<ipr::Break>(n); bool ok = vp_outcome([&] { n.from(); }) == 1;
+      ZCASE { v.generative(); impl::Break* b = lx.make_break(); const ipr::Break& n = *b; v.template node<ipr::Break>(n); bool ok = vp_outcome([&] { n.from(); }) == 1;
               impl::While* wl = lx.make_while(); b->stmt = wl; v.operands(ok && same(n.from(), *wl)); v.typed(n, &lx.void_type()); return; }
-      ZCASE { impl::Continue* b = lx.make_continue(); const ipr::Continue& n = *b; v.template node<ipr::Continue>(n); bool ok = vp_outcome([&] { n.iteration(); }) == 1;
+      ZCASE { v.generative(); impl::Continue* b = lx.make_continue(); const ipr::Continue& n = *b; v.template node<ipr::Continue>(n); bool ok = vp_outcome([&] { n.iteration(); }) == 1;
               impl::Do* wl = lx.make_do(); b->stmt = wl; v.operands(ok && same(n.iteration(), *wl)); v.typed(n, &lx.void_type()); return; }
-      ZCASE { const ipr::Type* et; auto ty = w.ot(et); impl::Block* b = lx.make_block(*w.reg, ty); const ipr::Block& n = *b; v.template node<ipr::Block>(n);
+      ZCASE { v.generative(); const ipr::Type* et; auto ty = w.ot(et); impl::Block* b = lx.make_block(*w.reg, ty); const ipr::Block& n = *b; v.template node<ipr::Block>(n);
               const ipr::Expr& st = *lx.make_expr_stmt(w.e()); b->add_stmt(st);
               v.operands(same(n.region().enclosing(), *w.reg) && n.body().size() == 1 && &*n.body().position(0) == &st && n.handlers().size() == 0); v.typed(n, et); return; }
-      ZCASE { impl::Expr_list* x = lx.make_expr_list(); impl::Block* b = lx.make_block(*w.reg); impl::Block* b2 = lx.make_block(*w.reg); const ipr::Block& pick = vp_flag() ? *b : *b2;
+      ZCASE { v.generative(); impl::Expr_list* x = lx.make_expr_list(); impl::Block* b = lx.make_block(*w.reg); impl::Block* b2 = lx.make_block(*w.reg); const ipr::Block& pick = w.flag() ? *b : *b2;
               const ipr::Ctor_body& n = *lx.make_ctor_body(*x, pick); v.template node<ipr::Ctor_body>(n); v.operands(same(n.inits(), *x) && same(n.block(), pick) && same(n.first(), *x) && same(n.second(), pick)); v.typed(n, nullptr); return; }
-      ZCASE { const ipr::Expr& a = *lx.make_id_expr(w.n(), w.t()); const ipr::Expr_stmt& n = *lx.make_expr_stmt(a); v.template node<ipr::Expr_stmt>(n); v.operands(same(n.expr(), a) && same(n.operand(), a)); v.typed(n, &a.type()); return; }
+      ZCASE { v.generative(); const ipr::Expr& a = *lx.make_id_expr(w.n(), w.t()); const ipr::Expr_stmt& n = *lx.make_expr_stmt(a); v.template node<ipr::Expr_stmt>(n); v.operands(same(n.expr(), a) && same(n.operand(), a)); v.typed(n, &a.type()); return; }
       ZCASE { const ipr::Expr& a = lx.get_label(w.id()); const ipr::Goto& n = *lx.make_goto(a); v.template node<ipr::Goto>(n); v.operands(same(n.target(), a) && same(n.operand(), a)); v.typed(n, &a.type()); return; }
-      ZCASE { const ipr::Expr& a = w.e(); const ipr::Return& n = *lx.make_return(a); v.template node<ipr::Return>(n); v.operands(same(n.value(), a) && same(n.operand(), a)); v.typed(n, nullptr); return; }
-      ZCASE { impl::Do* d = lx.make_do(); const ipr::Do& n = *d; v.template node<ipr::Do>(n); bool ok = vp_outcome([&] { n.condition(); }) == 1 && vp_outcome([&] { n.body(); }) == 1 && vp_outcome([&] { n.type(); }) == 1;
+      ZCASE { v.generative(); const ipr::Expr& a = w.e(); const ipr::Return& n = *lx.make_return(a); v.template node<ipr::Return>(n); v.operands(same(n.value(), a) && same(n.operand(), a)); v.typed(n, nullptr); return; }
+      ZCASE { v.generative(); impl::Do* d = lx.make_do(); const ipr::Do& n = *d; v.template node<ipr::Do>(n); bool ok = vp_outcome([&] { n.condition(); }) == 1 && vp_outcome([&] { n.body(); }) == 1 && vp_outcome([&] { n.type(); }) == 1;
               const ipr::Expr& c = w.e(); const ipr::Expr& b = *lx.make_expr_stmt(*lx.make_id_expr(w.n(), w.t())); d->control = &c; d->stmt = &b; v.operands(ok && same(n.condition(), c) && same(n.body(), b) && same(n.first(), c) && same(n.second(), b)); v.typed(n, &b.type()); return; }
-      ZCASE { impl::While* d = lx.make_while(); const ipr::While& n = *d; v.template node<ipr::While>(n); bool ok = vp_outcome([&] { n.condition(); }) == 1 && vp_outcome([&] { n.body(); }) == 1;
+      ZCASE { v.generative(); impl::While* d = lx.make_while(); const ipr::While& n = *d; v.template node<ipr::While>(n); bool ok = vp_outcome([&] { n.condition(); }) == 1 && vp_outcome([&] { n.body(); }) == 1;
               const ipr::Expr& c = w.e(); const ipr::Expr& b = *lx.make_expr_stmt(*lx.make_id_expr(w.n(), w.t())); d->control = &c; d->stmt = &b; v.operands(ok && same(n.condition(), c) && same(n.body(), b)); v.typed(n, &b.type()); return; }
-      ZCASE { impl::Switch* d = lx.make_switch(); const ipr::Switch& n = *d; v.template node<ipr::Switch>(n); bool ok = vp_outcome([&] { n.condition(); }) == 1 && vp_outcome([&] { n.body(); }) == 1;
+      ZCASE { v.generative(); impl::Switch* d = lx.make_switch(); const ipr::Switch& n = *d; v.template node<ipr::Switch>(n); bool ok = vp_outcome([&] { n.condition(); }) == 1 && vp_outcome([&] { n.body(); }) == 1;
               const ipr::Expr& c = w.e(); const ipr::Expr& b = *lx.make_expr_stmt(*lx.make_id_expr(w.n(), w.t())); d->control = &c; d->stmt = &b; v.operands(ok && same(n.condition(), c) && same(n.body(), b)); v.typed(n, &b.type()); return; }
-      ZCASE { const ipr::Expr& c = w.e(); const ipr::Expr& s = w.e(); const ipr::If& n = *lx.make_if(c, s); v.template node<ipr::If>(n);
+      ZCASE { v.generative(); const ipr::Expr& c = w.e(); const ipr::Expr& s = w.e(); const ipr::If& n = *lx.make_if(c, s); v.template node<ipr::If>(n);
               v.operands(same(n.condition(), c) && same(n.consequence(), s) && !n.alternative().is_valid() && same(n.first(), c) && same(n.second(), s)); v.typed(n, nullptr); return; }
-      ZCASE { const ipr::Expr& c = w.e(); const ipr::Expr& s = w.e(); const ipr::Expr& f = w.e(); const ipr::If& n = *lx.make_if(c, s, f); v.template node<ipr::If>(n);
+      ZCASE { v.generative(); const ipr::Expr& c = w.e(); const ipr::Expr& s = w.e(); const ipr::Expr& f = w.e(); const ipr::If& n = *lx.make_if(c, s, f); v.template node<ipr::If>(n);
               v.operands(same(n.condition(), c) && same(n.consequence(), s) && n.alternative().is_valid() && same(n.alternative().get(), f)); v.typed(n, nullptr); return; }
-      ZCASE { const ipr::Expr& l = w.e(); const ipr::Expr& s = *lx.make_expr_stmt(*lx.make_id_expr(w.n(), w.t())); const ipr::Labeled_stmt& n = *lx.make_labeled_stmt(l, s); v.template node<ipr::Labeled_stmt>(n);
+      ZCASE { v.generative(); const ipr::Expr& l = w.e(); const ipr::Expr& s = *lx.make_expr_stmt(*lx.make_id_expr(w.n(), w.t())); const ipr::Labeled_stmt& n = *lx.make_labeled_stmt(l, s); v.template node<ipr::Labeled_stmt>(n);
               v.operands(same(n.label(), l) && same(n.stmt(), s) && same(n.first(), l) && same(n.second(), s)); v.typed(n, &s.type()); return; }
-      ZCASE { impl::For* d = lx.make_for(); const ipr::For& n = *d; v.template node<ipr::For>(n);
+      ZCASE { v.generative(); impl::For* d = lx.make_for(); const ipr::For& n = *d; v.template node<ipr::For>(n);
               bool ok = vp_outcome([&] { n.initializer(); }) == 1 && vp_outcome([&] { n.condition(); }) == 1 && vp_outcome([&] { n.increment(); }) == 1 && vp_outcome([&] { n.body(); }) == 1 && vp_outcome([&] { n.type(); }) == 1;
               const ipr::Expr& i = w.e(); const ipr::Expr& c = w.e(); const ipr::Expr& inc = w.e(); const ipr::Stmt& b = *lx.make_expr_stmt(*lx.make_id_expr(w.n(), w.t()));
               d->init = &i; d->cond = &c; d->inc = &inc; d->stmt = &b; v.operands(ok && same(n.initializer(), i) && same(n.condition(), c) && same(n.increment(), inc) && same(n.body(), b)); v.typed(n, &b.type()); return; }
-      ZCASE { impl::For_in* d = lx.make_for_in(); const ipr::For_in& n = *d; v.template node<ipr::For_in>(n);
+      ZCASE { v.generative(); impl::For_in* d = lx.make_for_in(); const ipr::For_in& n = *d; v.template node<ipr::For_in>(n);
               bool ok = vp_outcome([&] { n.variable(); }) == 1 && vp_outcome([&] { n.sequence(); }) == 1 && vp_outcome([&] { n.body(); }) == 1;
               impl::Var* var = w.reg->declare_var(w.n(), w.t()); const ipr::Expr& sq = w.e(); const ipr::Stmt& b = *lx.make_expr_stmt(*lx.make_id_expr(w.n(), w.t()));
               d->var = var; d->seq = &sq; d->stmt = &b; v.operands(ok && same(n.variable(), *var) && same(n.sequence(), sq) && same(n.body(), b)); v.typed(n, &b.type()); return; }
-      ZCASE { impl::Block* b = lx.make_block(*w.reg); const ipr::Name& nm = w.n(); const ipr::Type& ty = w.t(); impl::Handler* h = b->new_handler(nm, ty); const ipr::Handler& n = *h; v.template node<ipr::Handler>(n);
+      ZCASE { v.generative(); impl::Block* b = lx.make_block(*w.reg); const ipr::Name& nm = w.n(); const ipr::Type& ty = w.t(); impl::Handler* h = b->new_handler(nm, ty); const ipr::Handler& n = *h; v.template node<ipr::Handler>(n);
               v.operands(same(n.exception().name(), nm) && same(n.exception().type(), ty) && n.body().handlers().size() == 0 && !n.exception().initializer().is_valid());
-              const ipr::Type* bt = nullptr; if (vp_flag()) { bt = &w.t(); h->body().typing = bt; } v.typed(n, bt);           // a handler borrows the type of its body
+              const ipr::Type* bt = nullptr; if (w.flag()) { bt = &w.t(); h->body().typing = bt; } v.typed(n, bt);           // a handler borrows the type of its body
               v.template node<ipr::EH_parameter>(n.exception()); v.template node<ipr::Block>(n.body()); return; }
       // ---- directives
-      ZCASE { impl::Specifiers_spread* d = lx.make_specifiers_spread(); const ipr::Specifiers_spread& n = *d; v.template node<ipr::Specifiers_spread>(n); uint64_t sp = nondet_ulong();
+      ZCASE { v.generative(); impl::Specifiers_spread* d = lx.make_specifiers_spread(); const ipr::Specifiers_spread& n = *d; v.template node<ipr::Specifiers_spread>(n); uint64_t sp = w.nd();
               bool ok = n.targets().size() == 0 && util::rep(n.specifiers()) == 0 && n.phases() == ipr::Phases::Elaboration; d->specs = ipr::Specifiers(sp); v.operands(ok && util::rep(n.specifiers()) == sp); v.typed(n, nullptr); return; }
-      ZCASE { impl::Structured_binding* d = lx.make_structured_binding(); const ipr::Structured_binding& n = *d; v.template node<ipr::Structured_binding>(n);
+      ZCASE { v.generative(); impl::Structured_binding* d = lx.make_structured_binding(); const ipr::Structured_binding& n = *d; v.template node<ipr::Structured_binding>(n);
               bool ok = n.names().size() == 0 && n.bindings().size() == 0 && vp_outcome([&] { n.initializer(); }) == 1 && n.mode() == ipr::Binding_mode::Copy && n.phases() == ipr::Phases::Elaboration;
-              const ipr::Expr& i = w.e(); d->init = &i; uint64_t bm = nondet_ulong() & 0xff; d->binding_mode = ipr::Binding_mode(bm); d->ids.push_back(&w.id());
+              const ipr::Expr& i = w.e(); d->init = &i; uint64_t bm = w.nd() & 0xff; d->binding_mode = ipr::Binding_mode(bm); d->ids.push_back(&w.id());
               v.operands(ok && same(n.initializer(), i) && (uint64_t)n.mode() == bm && n.names().size() == 1); v.typed(n, nullptr); return; }
-      ZCASE { const ipr::Scope_ref& sr = *lx.make_scope_ref(w.e(), w.e()); uint64_t md = nondet_ulong() & 0xffffffffu;
+      ZCASE { v.generative(); const ipr::Scope_ref& sr = *lx.make_scope_ref(w.e(), w.e()); uint64_t md = w.nd() & 0xffffffffu;
               const ipr::Using_declaration& n = *lx.make_using_declaration(sr, ipr::Using_declaration::Designator::Mode(md)); v.template node<ipr::Using_declaration>(n);
               v.operands(n.designators().size() == 1 && same(n.designators().position(0)->path(), sr) && (uint64_t)(unsigned)n.designators().position(0)->mode() == md && n.phases() == ipr::Phases::Elaboration); v.typed(n, nullptr); return; }
-      ZCASE { impl::Using_declaration* d = lx.make_using_declaration(); const ipr::Using_declaration& n = *d; v.template node<ipr::Using_declaration>(n); bool ok = n.designators().size() == 0;
+      ZCASE { v.generative(); impl::Using_declaration* d = lx.make_using_declaration(); const ipr::Using_declaration& n = *d; v.template node<ipr::Using_declaration>(n); bool ok = n.designators().size() == 0;
               const ipr::Scope_ref& sr = *lx.make_scope_ref(w.e(), w.e()); d->seq.push_back(sr, ipr::Using_declaration::Designator::Mode::Type);
               v.operands(ok && n.designators().size() == 1 && same(n.designators().position(0)->path(), sr)); v.typed(n, nullptr); return; }
-      ZCASE { impl::Namespace* ns = lx.make_namespace(*w.reg); impl::Namespace* ns2 = lx.make_namespace(*w.reg); const ipr::Scope& sc = vp_flag() ? ns->body.scope : ns2->body.scope; const ipr::Type& ty = w.t();
+      ZCASE { v.generative(); impl::Namespace* ns = lx.make_namespace(*w.reg); impl::Namespace* ns2 = lx.make_namespace(*w.reg); const ipr::Scope& sc = w.flag() ? ns->body.scope : ns2->body.scope; const ipr::Type& ty = w.t();
               const ipr::Using_directive& n = *lx.make_using_directive(sc, ty); v.template node<ipr::Using_directive>(n); v.operands(same(n.nominated_scope(), sc) && n.phases() == ipr::Phases::Elaboration); v.typed(n, &ty); return; }
-      ZCASE { impl::Pragma* d = lx.make_pragma(); const ipr::Pragma& n = *d; v.template node<ipr::Pragma>(n); v.operands(n.incantation().size() == 0 && same(n.incantation(), n.operand()) && n.phases() == ipr::Phases::All); v.typed(n, nullptr); return; }
+      ZCASE { v.generative(); impl::Pragma* d = lx.make_pragma(); const ipr::Pragma& n = *d; v.template node<ipr::Pragma>(n); v.operands(n.incantation().size() == 0 && same(n.incantation(), n.operand()) && n.phases() == ipr::Phases::All); v.typed(n, nullptr); return; }
       // ---- types
       ZCASE { const ipr::Type& e = w.t(); const ipr::Expr& b = w.e(); const ipr::Array& n = lx.get_array(e, b); v.template node<ipr::Array>(n); v.operands(same(n.element_type(), e) && same(n.bound(), b) && same(n.first(), e) && same(n.second(), b)); v.typed(n, &lx.typename_type()); return; }
-      ZCASE { uint64_t q = nondet_ulong(); vp_assume(q != 0); const ipr::Type& m = w.t(); const ipr::Qualified& n = lx.get_qualified(ipr::Qualifiers(q), m); v.template node<ipr::Qualified>(n);
+      ZCASE { uint64_t q = w.nd(); vp_assume(q != 0); const ipr::Type& m = w.t(); const ipr::Qualified& n = lx.get_qualified(ipr::Qualifiers(q), m); v.template node<ipr::Qualified>(n);
               v.operands(util::rep(n.qualifiers()) == q && same(n.main_variant(), m) && util::rep(n.first()) == q && same(n.second(), m)); v.typed(n, &lx.typename_type()); return; }
-      ZCASE { const ipr::Expr& e = w.e(); const ipr::Decltype& n = lx.get_decltype(e); v.template node<ipr::Decltype>(n); v.operands(same(n.expr(), e) && same(n.operand(), e)); v.typed(n, &lx.typename_type()); return; }
+      ZCASE { v.generative(); const ipr::Expr& e = w.e(); const ipr::Decltype& n = lx.get_decltype(e); v.template node<ipr::Decltype>(n); v.operands(same(n.expr(), e) && same(n.operand(), e)); v.typed(n, &lx.typename_type()); return; }
       ZCASE { impl::Warehouse<ipr::Type> w1, w2; w1.push_back(w.t()); w2.push_back(w.t()); const ipr::Product& p = lx.get_product(w1); const ipr::Sum& s = lx.get_sum(w2); const ipr::Tor& n = lx.get_tor(p, s);
               v.template node<ipr::Tor>(n); v.operands(same(n.source(), p) && same(n.throws(), s) && same(n.first(), p) && same(n.second(), s)); v.typed(n, &lx.typename_type());
               v.template node<ipr::Product>(p); v.template node<ipr::Sum>(s); v.typed(p, &lx.typename_type()); v.typed(s, &lx.typename_type()); return; }
-      ZCASE { impl::Warehouse<ipr::Type> w1; w1.push_back(w.t()); const ipr::Product& p = lx.get_product(w1); const ipr::Type& t = w.t(); const ipr::Expr& th = w.e(); bool with_xfer = vp_flag();
+      ZCASE { impl::Warehouse<ipr::Type> w1; w1.push_back(w.t()); const ipr::Product& p = lx.get_product(w1); const ipr::Type& t = w.t(); const ipr::Expr& th = w.e(); bool with_xfer = w.flag();
               const ipr::Transfer& xf = lx.get_transfer(lx.c_linkage(), lx.get_calling_convention(u8"cc"));
               const ipr::Function& n = with_xfer ? lx.get_function(p, t, th, xf) : lx.get_function(p, t, th); v.template node<ipr::Function>(n);
               v.operands(same(n.source(), p) && same(n.target(), t) && same(n.throws(), th) && same(n.first(), p) && same(n.second(), t) && same(n.third(), th) && (with_xfer ? n.transfer() == xf : n.transfer() == lx.int_type().transfer()));
@@ -257,21 +270,21 @@ namespace zoo {
       ZCASE { const ipr::Type& c = w.t(); const ipr::Type& m = w.t(); const ipr::Ptr_to_member& n = lx.get_ptr_to_member(c, m); v.template node<ipr::Ptr_to_member>(n); v.operands(same(n.containing_type(), c) && same(n.member_type(), m) && same(n.first(), c) && same(n.second(), m)); v.typed(n, &lx.typename_type()); return; }
       ZCASE { impl::Warehouse<ipr::Type> w1; w1.push_back(w.t()); const ipr::Product& p = lx.get_product(w1); const ipr::Type& t = w.t(); const ipr::Forall& n = lx.get_forall(p, t); v.template node<ipr::Forall>(n);
               v.operands(same(n.source(), p) && same(n.target(), t) && same(n.first(), p) && same(n.second(), t)); v.typed(n, &lx.typename_type()); return; }
-      ZCASE { const ipr::Auto& n = lx.get_auto(); v.template node<ipr::Auto>(n); v.operands(!same(n, lx.get_auto())); v.typed(n, &lx.typename_type()); return; }
-      ZCASE { const ipr::Expr& e = w.e(); bool with_xfer = vp_flag(); const ipr::Transfer& xf = lx.get_transfer(lx.c_linkage(), lx.get_calling_convention(u8"cc"));
+      ZCASE { v.generative(); const ipr::Auto& n = lx.get_auto(); v.template node<ipr::Auto>(n); v.operands(!same(n, lx.get_auto())); v.typed(n, &lx.typename_type()); return; }
+      ZCASE { const ipr::Expr& e = w.e(); bool with_xfer = w.flag(); const ipr::Transfer& xf = lx.get_transfer(lx.c_linkage(), lx.get_calling_convention(u8"cc"));
               const ipr::As_type& n = with_xfer ? lx.get_as_type(e, xf) : lx.get_as_type(e); v.template node<ipr::As_type>(n);
               v.operands(same(n.expr(), e) && same(n.operand(), e) && (with_xfer ? n.transfer() == xf : n.transfer() == lx.int_type().transfer())); v.typed(n, &lx.typename_type()); return; }
       ZCASE { const ipr::Identifier& i = w.id(); const ipr::As_type& n = lx.get_as_type(i); v.template node<ipr::As_type>(n); v.operands(same(n.name(), i) && same(n.expr(), n)); v.typed(n, &lx.typename_type()); return; }
-      ZCASE { uint64_t kd = nondet_ulong() & 0xff; impl::Enum* e = lx.make_enum(*w.reg, ipr::Enum::Kind(kd)); const ipr::Enum& n = *e; v.template node<ipr::Enum>(n);
+      ZCASE { v.generative(); uint64_t kd = w.nd() & 0xff; impl::Enum* e = lx.make_enum(*w.reg, ipr::Enum::Kind(kd)); const ipr::Enum& n = *e; v.template node<ipr::Enum>(n);
               bool ok = (uint64_t)n.kind() == kd && same(n.region().enclosing(), *w.reg) && !n.base().is_valid() && n.members().size() == 0 && vp_outcome([&] { n.name(); }) == 1;
               const ipr::Name& nm = w.n(); e->id = &nm; const ipr::Type& b = w.t(); e->underlying = &b; const ipr::Enumerator& en = *e->add_member(w.id());
               v.operands(ok && same(n.name(), nm) && same(n.base().get(), b) && n.members().size() == 1 && same(en.type(), n)); v.typed(n, &lx.enum_type()); v.template node<ipr::Enumerator>(en); return; }
-      ZCASE { impl::Class* c = lx.make_class(*w.reg); const ipr::Class& n = *c; v.template node<ipr::Class>(n); bool ok = same(n.region().enclosing(), *w.reg) && n.bases().size() == 0 && n.members().size() == 0 && vp_outcome([&] { n.name(); }) == 1;
+      ZCASE { v.generative(); impl::Class* c = lx.make_class(*w.reg); const ipr::Class& n = *c; v.template node<ipr::Class>(n); bool ok = same(n.region().enclosing(), *w.reg) && n.bases().size() == 0 && n.members().size() == 0 && vp_outcome([&] { n.name(); }) == 1;
               const ipr::Name& nm = w.n(); c->id = &nm; const ipr::Type& bt = w.t(); const ipr::Base_type& b = *c->declare_base(bt);
               v.operands(ok && same(n.name(), nm) && n.bases().size() == 1 && same(b.type(), bt)); v.typed(n, &lx.class_type()); v.template node<ipr::Base_type>(b); return; }
-      ZCASE { impl::Union* c = lx.make_union(*w.reg); const ipr::Union& n = *c; v.template node<ipr::Union>(n); const ipr::Name& nm = w.n(); c->id = &nm; v.operands(same(n.region().enclosing(), *w.reg) && same(n.name(), nm)); v.typed(n, &lx.union_type()); return; }
-      ZCASE { impl::Namespace* c = lx.make_namespace(*w.reg); const ipr::Namespace& n = *c; v.template node<ipr::Namespace>(n); const ipr::Name& nm = w.n(); c->id = &nm; v.operands(same(n.region().enclosing(), *w.reg) && same(n.name(), nm)); v.typed(n, &lx.namespace_type()); return; }
-      ZCASE { impl::Closure* c = lx.make_closure(*w.reg); const ipr::Closure& n = *c; v.template node<ipr::Closure>(n); v.operands(same(n.region().enclosing(), *w.reg) && n.members().size() == 0); v.typed(n, &lx.class_type()); return; }
+      ZCASE { v.generative(); impl::Union* c = lx.make_union(*w.reg); const ipr::Union& n = *c; v.template node<ipr::Union>(n); const ipr::Name& nm = w.n(); c->id = &nm; v.operands(same(n.region().enclosing(), *w.reg) && same(n.name(), nm)); v.typed(n, &lx.union_type()); return; }
+      ZCASE { v.generative(); impl::Namespace* c = lx.make_namespace(*w.reg); const ipr::Namespace& n = *c; v.template node<ipr::Namespace>(n); const ipr::Name& nm = w.n(); c->id = &nm; v.operands(same(n.region().enclosing(), *w.reg) && same(n.name(), nm)); v.typed(n, &lx.namespace_type()); return; }
+      ZCASE { v.generative(); impl::Closure* c = lx.make_closure(*w.reg); const ipr::Closure& n = *c; v.template node<ipr::Closure>(n); v.operands(same(n.region().enclosing(), *w.reg) && n.members().size() == 0); v.typed(n, &lx.class_type()); return; }
       // ---- names
       ZCASE { const ipr::String& s = w.s(); const ipr::Identifier& n = lx.get_identifier(s); v.template node<ipr::Identifier>(n); v.operands(same(n.string(), s) && same(n.operand(), s)); return; }
       ZCASE { const ipr::Identifier& i = w.id(); const ipr::Suffix& n = lx.get_suffix(i); v.template node<ipr::Suffix>(n); v.operands(same(n.name(), i) && same(n.operand(), i)); return; }
@@ -280,45 +293,45 @@ namespace zoo {
       ZCASE { const ipr::Type& t = w.t(); const ipr::Ctor_name& n = lx.get_ctor_name(t); v.template node<ipr::Ctor_name>(n); v.operands(same(n.object_type(), t) && same(n.operand(), t)); return; }
       ZCASE { const ipr::Type& t = w.t(); const ipr::Dtor_name& n = lx.get_dtor_name(t); v.template node<ipr::Dtor_name>(n); v.operands(same(n.object_type(), t) && same(n.operand(), t)); return; }
       ZCASE { impl::Warehouse<ipr::Type> w1; w1.push_back(lx.typename_type()); auto& fa = lx.get_forall(lx.get_product(w1), lx.class_type());
-              impl::Template* t0 = w.reg->declare_primary_template(*w.I[0], fa); impl::Template* t1 = w.reg->declare_primary_template(*w.I[1], fa); const ipr::Template& t = vp_flag() ? *t0 : *t1;
+              impl::Template* t0 = w.reg->declare_primary_template(*w.I[0], fa); impl::Template* t1 = w.reg->declare_primary_template(*w.I[1], fa); const ipr::Template& t = w.flag() ? *t0 : *t1;
               const ipr::Guide_name& n = lx.get_guide_name(t); v.template node<ipr::Guide_name>(n); v.operands(same(n.mapping_decl(), t) && same(n.operand(), t)); v.template node<ipr::Template>(t); return; }
       ZCASE { const ipr::Type& t = w.t(); const ipr::Pointer& p = lx.get_pointer(t); auto tid = util::view<ipr::Type_id>(p.name()); v.operands(tid != nullptr && same(tid->type_expr(), p) && same(tid->operand(), p)); if (tid) v.template node<ipr::Type_id>(*tid); return; }
       ZCASE { const ipr::String& s = w.s(); const ipr::Logogram& n = lx.get_logogram(s); v.template node<ipr::Logogram>(n); v.operands(same(n.what(), s) && same(n.operand(), s)); return; }
       // ---- declarations through scopes and member lists
-      ZCASE { const ipr::Name& nm = w.n(); const ipr::Type& ty = w.t(); impl::Var* d = w.reg->declare_var(nm, ty); const ipr::Var& n = *d; v.template node<ipr::Var>(n);
-              bool ok = same(n.name(), nm) && same(n.type(), ty) && !n.initializer().is_valid() && util::rep(n.specifiers()) == 0; uint64_t sp = nondet_ulong(); d->specifiers(ipr::Specifiers(sp)); const ipr::Expr& i = w.e(); d->init = &i;
+      ZCASE { v.generative(); const ipr::Name& nm = w.n(); const ipr::Type& ty = w.t(); impl::Var* d = w.reg->declare_var(nm, ty); const ipr::Var& n = *d; v.template node<ipr::Var>(n);
+              bool ok = same(n.name(), nm) && same(n.type(), ty) && !n.initializer().is_valid() && util::rep(n.specifiers()) == 0; uint64_t sp = w.nd(); d->specifiers(ipr::Specifiers(sp)); const ipr::Expr& i = w.e(); d->init = &i;
               v.operands(ok && util::rep(n.specifiers()) == sp && same(n.initializer().get(), i)); v.typed(n, &ty); return; }
-      ZCASE { const ipr::Name& nm = w.n(); const ipr::Type& ty = w.t(); impl::Field* d = w.reg->declare_field(nm, ty); const ipr::Field& n = *d; v.template node<ipr::Field>(n); v.operands(same(n.name(), nm) && same(n.type(), ty) && !n.initializer().is_valid()); v.typed(n, &ty); return; }
-      ZCASE { const ipr::Name& nm = w.n(); const ipr::Type& ty = w.t(); impl::Bitfield* d = w.reg->declare_bitfield(nm, ty); const ipr::Bitfield& n = *d; v.template node<ipr::Bitfield>(n); bool ok = vp_outcome([&] { n.precision(); }) == 1;
+      ZCASE { v.generative(); const ipr::Name& nm = w.n(); const ipr::Type& ty = w.t(); impl::Field* d = w.reg->declare_field(nm, ty); const ipr::Field& n = *d; v.template node<ipr::Field>(n); v.operands(same(n.name(), nm) && same(n.type(), ty) && !n.initializer().is_valid()); v.typed(n, &ty); return; }
+      ZCASE { v.generative(); const ipr::Name& nm = w.n(); const ipr::Type& ty = w.t(); impl::Bitfield* d = w.reg->declare_bitfield(nm, ty); const ipr::Bitfield& n = *d; v.template node<ipr::Bitfield>(n); bool ok = vp_outcome([&] { n.precision(); }) == 1;
               const ipr::Expr& p = w.e(); d->length = &p; v.operands(ok && same(n.name(), nm) && same(n.type(), ty) && same(n.precision(), p)); v.typed(n, &ty); return; }
-      ZCASE { const ipr::Name& nm = w.n(); const ipr::Expr& i = *lx.make_id_expr(w.n(), w.t()); impl::Alias* d = w.reg->scope.make_alias(nm, i); const ipr::Alias& n = *d; v.template node<ipr::Alias>(n);
+      ZCASE { v.generative(); const ipr::Name& nm = w.n(); const ipr::Expr& i = *lx.make_id_expr(w.n(), w.t()); impl::Alias* d = w.reg->scope.make_alias(nm, i); const ipr::Alias& n = *d; v.template node<ipr::Alias>(n);
               v.operands(same(n.name(), nm) && n.initializer().is_valid() && same(n.initializer().get(), i)); v.typed(n, &i.type()); return; }
-      ZCASE { const ipr::Name& nm = w.n(); const ipr::Type& ty = w.t(); impl::Typedecl* d = w.reg->declare_type(nm, ty); const ipr::Typedecl& n = *d; v.template node<ipr::Typedecl>(n); v.operands(same(n.name(), nm) && same(n.type(), ty) && !n.initializer().is_valid()); v.typed(n, &ty); return; }
-      ZCASE { impl::Warehouse<ipr::Type> w1; w1.push_back(w.t()); const ipr::Function& ft = lx.get_function(lx.get_product(w1), w.t()); const ipr::Name& nm = w.n(); impl::Fundecl* d = w.reg->declare_fun(nm, ft); const ipr::Fundecl& n = *d;
+      ZCASE { v.generative(); const ipr::Name& nm = w.n(); const ipr::Type& ty = w.t(); impl::Typedecl* d = w.reg->declare_type(nm, ty); const ipr::Typedecl& n = *d; v.template node<ipr::Typedecl>(n); v.operands(same(n.name(), nm) && same(n.type(), ty) && !n.initializer().is_valid()); v.typed(n, &ty); return; }
+      ZCASE { v.generative(); impl::Warehouse<ipr::Type> w1; w1.push_back(w.t()); const ipr::Function& ft = lx.get_function(lx.get_product(w1), w.t()); const ipr::Name& nm = w.n(); impl::Fundecl* d = w.reg->declare_fun(nm, ft); const ipr::Fundecl& n = *d;
               v.template node<ipr::Fundecl>(n); bool ok = same(n.name(), nm) && same(n.type(), ft) && !n.mapping().is_valid() && !n.initializer().is_valid() && vp_outcome([&] { n.parameters(); }) == 1;
               impl::Mapping* m = lx.make_mapping(*w.reg, Mapping_level{ 0 }); d->data.template emplace<1>(m); v.operands(ok && n.mapping().is_valid() && same(n.mapping().get(), *m) && same(n.parameters(), m->parameters()) && same(n.initializer().get(), *m)); v.typed(n, &ft); return; }
-      ZCASE { uint64_t lvl = nondet_ulong(); impl::Mapping* m = lx.make_mapping(*w.reg, Mapping_level{ lvl }); const ipr::Name& nm = w.n(); const ipr::Type& ty = w.t(); impl::Parameter* p = m->param(nm, ty); const ipr::Parameter& n = *p;
+      ZCASE { v.generative(); uint64_t lvl = w.nd(); impl::Mapping* m = lx.make_mapping(*w.reg, Mapping_level{ lvl }); const ipr::Name& nm = w.n(); const ipr::Type& ty = w.t(); impl::Parameter* p = m->param(nm, ty); const ipr::Parameter& n = *p;
               v.template node<ipr::Parameter>(n); bool ok = same(n.name(), nm) && same(n.type(), ty) && util::rep(n.level()) == lvl && util::rep(n.position()) == 0 && !n.default_value().is_valid();
               const ipr::Expr& dv = w.e(); p->init = &dv; v.operands(ok && same(n.default_value().get(), dv)); v.typed(n, &ty); return; }
       // ---- tokens, attributes, captures
-      ZCASE { const ipr::String& s = w.s(); ipr::Source_location loc; uint64_t a = nondet_ulong(), b = nondet_ulong(); loc.line = ipr::Line_number(uint32_t(a)); loc.column = ipr::Column_number(uint32_t(a >> 32)); loc.file = ipr::File_index(uint32_t(b));
-              const impl::Token& tk = *new impl::Token(s, loc, ipr::TokenValue(uint16_t(b >> 32)), ipr::TokenCategory(uint8_t(b >> 48))); /* Lexicon::make_token is declared but not defined by the library */ const ipr::Token& n = tk; v.template node<ipr::Token>(n); v.template node<ipr::Lexeme>(n.lexeme());
+      ZCASE { const ipr::String& s = w.s(); ipr::Source_location loc; uint64_t a = w.nd(), b = w.nd(); loc.line = ipr::Line_number(uint32_t(a)); loc.column = ipr::Column_number(uint32_t(a >> 32)); loc.file = ipr::File_index(uint32_t(b));
+              const impl::Token& tk = *w.own(new impl::Token(s, loc, ipr::TokenValue(uint16_t(b >> 32)), ipr::TokenCategory(uint8_t(b >> 48)))); /* Lexicon::make_token is declared but not defined by the library */ const ipr::Token& n = tk; v.template node<ipr::Token>(n); v.template node<ipr::Lexeme>(n.lexeme());
               v.operands(same(n.lexeme().spelling(), s) && util::rep(n.lexeme().locus().line) == uint32_t(a) && util::rep(n.lexeme().locus().column) == uint32_t(a >> 32) && util::rep(n.lexeme().locus().file) == uint32_t(b)
                          && util::rep(n.value()) == uint16_t(b >> 32) && util::rep(n.category()) == uint8_t(b >> 48)); return; }
-      ZCASE { impl::attr_factory* af = new impl::attr_factory; ipr::Source_location loc { };
-              const ipr::Token& t0 = *new impl::Token(*w.S[0], loc, ipr::TokenValue{ }, ipr::TokenCategory{ }); const ipr::Token& t1 = *new impl::Token(*w.S[1], loc, ipr::TokenValue{ }, ipr::TokenCategory{ });
-              const ipr::Token& ta = vp_flag() ? t0 : t1; const ipr::Token& tb = vp_flag() ? t0 : t1;
+      ZCASE { impl::attr_factory* af = w.own(new impl::attr_factory); ipr::Source_location loc { };
+              const ipr::Token& t0 = *w.own(new impl::Token(*w.S[0], loc, ipr::TokenValue{ }, ipr::TokenCategory{ })); const ipr::Token& t1 = *w.own(new impl::Token(*w.S[1], loc, ipr::TokenValue{ }, ipr::TokenCategory{ }));
+              const ipr::Token& ta = w.flag() ? t0 : t1; const ipr::Token& tb = w.flag() ? t0 : t1;
               const ipr::BasicAttribute& ba = af->make_basic_attribute(ta); const ipr::ScopedAttribute& sa = af->make_scoped_attribute(ta, tb); const ipr::LabeledAttribute& la = af->make_labeled_attribute(ta, sa);
-              impl::ref_sequence<ipr::Attribute>* args = new impl::ref_sequence<ipr::Attribute>; args->push_back(&ba);
+              impl::ref_sequence<ipr::Attribute>* args = w.own(new impl::ref_sequence<ipr::Attribute>); args->push_back(&ba);
               const ipr::CalledAttribute& ca = af->make_called_attribute(la, *args); const ipr::ExpandedAttribute& xa = af->make_expanded_attribute(tb, ca); const ipr::FactoredAttribute& fa = af->make_factored_attribute(ta, *args);
               const ipr::Expr& e = w.e(); const ipr::ElaboratedAttribute& ea = af->make_elaborated_attribute(e);
               v.operands(same(ba.token(), ta) && same(sa.scope(), ta) && same(sa.member(), tb) && same(la.label(), ta) && same(la.attribute(), sa) && same(ca.function(), la) && same(ca.arguments(), *args)
                          && same(xa.expander(), tb) && same(static_cast<const ipr::ExpandedAttribute&>(xa).operand(), ca) && same(fa.factor(), ta) && same(fa.terms(), *args) && same(ea.elaboration(), e));
               v.template node<ipr::BasicAttribute>(ba); v.template node<ipr::ScopedAttribute>(sa); v.template node<ipr::LabeledAttribute>(la); v.template node<ipr::CalledAttribute>(ca);
               v.template node<ipr::ExpandedAttribute>(xa); v.template node<ipr::FactoredAttribute>(fa); v.template node<ipr::ElaboratedAttribute>(ea); return; }
-      ZCASE { impl::capture_spec_factory* cf = new impl::capture_spec_factory; uint64_t m = nondet_ulong() & 0xff; ipr::Binding_mode bm = ipr::Binding_mode(m);
+      ZCASE { impl::capture_spec_factory* cf = w.own(new impl::capture_spec_factory); uint64_t m = w.nd() & 0xff; ipr::Binding_mode bm = ipr::Binding_mode(m);
               impl::Var* d = w.reg->declare_var(w.id(), w.t()); const ipr::Identifier& i = w.id(); const ipr::Expr& e = w.e();
-              auto& dc = cf->default_capture(bm); auto& io = cf->implicit_object_capture(bm); auto& el = cf->enclosing_local_capture(*d, bm); auto& bc = cf->binding_capture(i, e, bm); auto& ex = cf->expansion_capture(vp_flag() ? static_cast<const ipr::Capture_specification::Named&>(el) : bc);
+              auto& dc = cf->default_capture(bm); auto& io = cf->implicit_object_capture(bm); auto& el = cf->enclosing_local_capture(*d, bm); auto& bc = cf->binding_capture(i, e, bm); auto& ex = cf->expansion_capture(w.flag() ? static_cast<const ipr::Capture_specification::Named&>(el) : bc);
               v.operands((uint64_t)dc.mode() == m && (uint64_t)io.how() == m && (uint64_t)el.mode() == m && same(el.declaration(), *d) && same(el.name(), d->name()) && (uint64_t)bc.mode() == m && same(bc.name(), i) && same(bc.initializer(), e)
                          && (same(ex.what(), el) || same(ex.what(), bc)));
               v.template node<ipr::Capture_specification::Default>(dc); v.template node<ipr::Capture_specification::Implicit_object>(io); v.template node<ipr::Capture_specification::Enclosing_local>(el);
@@ -336,7 +349,7 @@ namespace zoo {
               bool ok = same(s.expr(), x) && same(t0.type_name(), nm) && !t0.scope().is_valid() && same(t1.type_name(), nm) && same(t1.scope().get(), sc) && same(c.expr(), x) && !c.constraint().is_valid() && !c.nothrow() && same(ne.condition(), x);
               cr->has_noexcept = true; v.operands(ok && c.nothrow());
               v.template node<ipr::cxx_form::Requirement::Simple>(s); v.template node<ipr::cxx_form::Requirement::Type>(t0); v.template node<ipr::cxx_form::Requirement::Type>(t1); v.template node<ipr::cxx_form::Requirement::Compound>(c); v.template node<ipr::cxx_form::Requirement::Nested>(ne); return; }
-      ZCASE { auto& ff = *w.reg; uint64_t q = nondet_ulong(); uint64_t fl = nondet_ulong() & 0xffffffffu; const ipr::Expr& sc = w.e();
+      ZCASE { auto& ff = *w.reg; uint64_t q = w.nd(); uint64_t fl = w.nd() & 0xffffffffu; const ipr::Expr& sc = w.e();
               const ipr::cxx_form::Indirector::Pointer& p = *ff.make_pointer_indirector(ipr::Qualifiers(q)); const ipr::cxx_form::Indirector::Reference& r = *ff.make_reference_indirector(ipr::cxx_form::Reference_flavor(fl));
               const ipr::cxx_form::Indirector::Member& m = *ff.make_member_indirector(sc, ipr::Qualifiers(q));
               v.operands(util::rep(p.qualifiers()) == q && (uint64_t)(unsigned)r.flavor() == fl && same(m.scope(), sc) && util::rep(m.qualifiers()) == q && p.attributes().size() == 0);
@@ -349,17 +362,17 @@ namespace zoo {
               auto* td = ff.make_term_declarator(); ps->declarator = td; v.operands(ok && same(pa.term(), *td));
               v.template node<ipr::cxx_form::Species_declarator::Unqualified_id>(u0); v.template node<ipr::cxx_form::Species_declarator::Unqualified_id>(u1); v.template node<ipr::cxx_form::Species_declarator::Pack>(p0);
               v.template node<ipr::cxx_form::Species_declarator::Pack>(p1); v.template node<ipr::cxx_form::Species_declarator::Qualified_id>(q); v.template node<ipr::cxx_form::Species_declarator::Parenthesized>(pa); return; }
-      ZCASE { auto& ff = *w.reg; uint64_t lvl = nondet_ulong(); auto* fm = ff.make_function_morphism(*w.reg, Mapping_level{ lvl }); const ipr::cxx_form::Morphism::Function& f = *fm; auto* am = ff.make_array_morphism(); const ipr::cxx_form::Morphism::Array& a = *am;
+      ZCASE { v.generative(); auto& ff = *w.reg; uint64_t lvl = w.nd(); auto* fm = ff.make_function_morphism(*w.reg, Mapping_level{ lvl }); const ipr::cxx_form::Morphism::Function& f = *fm; auto* am = ff.make_array_morphism(); const ipr::cxx_form::Morphism::Array& a = *am;
               bool ok = util::rep(f.parameters().level()) == lvl && same(f.parameters().region().enclosing(), *w.reg) && !f.throws().is_valid() && util::rep(f.qualifiers()) == 0 && f.binding_mode() == ipr::Binding_mode::Copy && !a.bound().is_valid() && f.attributes().size() == 0;
-              const ipr::Expr& b = w.e(); am->array_bound = &b; uint64_t q = nondet_ulong(); fm->quals = ipr::Qualifiers(q); fm->eh_spec = &b;
+              const ipr::Expr& b = w.e(); am->array_bound = &b; uint64_t q = w.nd(); fm->quals = ipr::Qualifiers(q); fm->eh_spec = &b;
               v.operands(ok && same(a.bound().get(), b) && util::rep(f.qualifiers()) == q && same(f.throws().get(), b));
               v.template node<ipr::cxx_form::Morphism::Function>(f); v.template node<ipr::cxx_form::Morphism::Array>(a); return; }
-      ZCASE { auto& ff = *w.reg; auto* td = ff.make_term_declarator(); const ipr::cxx_form::Declarator::Term& t = *td; auto* sp = ff.make_unqualified_id_species(w.n()); const ipr::Type& ty = w.t();
+      ZCASE { v.generative(); auto& ff = *w.reg; auto* td = ff.make_term_declarator(); const ipr::cxx_form::Declarator::Term& t = *td; auto* sp = ff.make_unqualified_id_species(w.n()); const ipr::Type& ty = w.t();
               const ipr::cxx_form::Declarator::Targeted& tg = *ff.make_targeted_declarator(*sp, ty);
               bool ok = t.indirectors().size() == 0 && vp_outcome([&] { t.species(); }) == 1 && same(tg.species(), *sp) && same(tg.target(), ty);
               td->tail = sp; v.operands(ok && same(t.species(), *sp)); v.template node<ipr::cxx_form::Declarator::Term>(t); v.template node<ipr::cxx_form::Declarator::Targeted>(tg); return; }
-      ZCASE { auto& ff = *w.reg; const ipr::Expr& x = w.e(); auto* bp = ff.make_braced_provision(); auto* dp = ff.make_designated_provision(); const ipr::cxx_form::Braced_provision& b = *bp; const ipr::cxx_form::Designated_list_provision& d = *dp;
-              const ipr::cxx_form::Elemental_initializer& ei = vp_flag() ? static_cast<const ipr::cxx_form::Elemental_initializer&>(b) : d;
+      ZCASE { v.generative(); auto& ff = *w.reg; const ipr::Expr& x = w.e(); auto* bp = ff.make_braced_provision(); auto* dp = ff.make_designated_provision(); const ipr::cxx_form::Braced_provision& b = *bp; const ipr::cxx_form::Designated_list_provision& d = *dp;
+              const ipr::cxx_form::Elemental_initializer& ei = w.flag() ? static_cast<const ipr::cxx_form::Elemental_initializer&>(b) : d;
               const ipr::cxx_form::Classic_provision& c = *ff.make_classic_provision(ei); const ipr::cxx_form::Parenthesized_provision& p = *ff.make_parenthesized_provision(x);
               const ipr::Identifier& i = w.id(); const ipr::cxx_form::Field_designator& fd = *ff.make_field_designator(i); const ipr::cxx_form::Slot_designator& sd = *ff.make_slot_designator(x);
               bool ok = same(c.initializer(), ei) && same(p.initializer(), x) && b.elements().size() == 0 && d.elements().size() == 0 && same(fd.name(), i) && same(sd.index(), x);
@@ -367,20 +380,20 @@ namespace zoo {
               v.template node<ipr::cxx_form::Classic_provision>(c); v.template node<ipr::cxx_form::Parenthesized_provision>(p); v.template node<ipr::cxx_form::Braced_provision>(b); v.template node<ipr::cxx_form::Designated_list_provision>(d);
               v.template node<ipr::cxx_form::Field_designator>(fd); v.template node<ipr::cxx_form::Slot_designator>(sd); return; }
       // ---- process-wide constants, scopes, regions, overloads
-      ZCASE { const ipr::Lexicon& cl = lx; const ipr::Symbol* syms[5] = { &cl.true_value(), &cl.false_value(), &cl.nullptr_value(), &cl.default_value(), &cl.delete_value() }; unsigned i = vp_pick(5);
+      ZCASE { const ipr::Lexicon& cl = lx; const ipr::Symbol* syms[5] = { &cl.true_value(), &cl.false_value(), &cl.nullptr_value(), &cl.default_value(), &cl.delete_value() }; unsigned i = w.pick(5);
               v.template node<ipr::Symbol>(*syms[i]); v.operands(true);
               const ipr::Type* ty[5] = { &cl.bool_type(), &cl.bool_type(), nullptr, nullptr, &cl.void_type() }; if (ty[i]) v.typed(*syms[i], ty[i]);
               if (i == 2) { auto dt = util::view<ipr::Decltype>(syms[2]->type()); if (dt) { v.template node<ipr::Decltype>(*dt); v.typed(*dt, &cl.typename_type()); } }
               auto idn = util::view<ipr::Identifier>(syms[i]->name()); if (idn) v.template node<ipr::Identifier>(*idn); return; }
-      ZCASE { const ipr::Lexicon& cl = lx; const ipr::Type* bt[] = { &cl.void_type(), &cl.int_type(), &cl.typename_type(), &cl.class_type(), &cl.ellipsis_type(), &cl.long_double_type() }; const ipr::Type& t = *bt[vp_pick(6)];
+      ZCASE { const ipr::Lexicon& cl = lx; const ipr::Type* bt[] = { &cl.void_type(), &cl.int_type(), &cl.typename_type(), &cl.class_type(), &cl.ellipsis_type(), &cl.long_double_type() }; const ipr::Type& t = *bt[w.pick(6)];
               auto at = util::view<ipr::As_type>(t); v.operands(at != nullptr); if (at) { v.template node<ipr::As_type>(*at); v.typed(*at, &cl.typename_type()); } return; }
       ZCASE { v.template node<ipr::String>(ipr::String::empty_string()); v.template node<ipr::String>(*w.S[0]); v.template node<ipr::String>(lx.get_string(u8"int")); v.operands(true); return; }
       ZCASE { const ipr::Region& r = *w.reg; v.template node<ipr::Region>(r); const ipr::Scope& sc = r.bindings(); v.template node<ipr::Scope>(sc);
               impl::Var* d = w.reg->declare_var(w.n(), w.t()); auto ovl = sc[d->name()]; v.operands(ovl.is_valid()); if (ovl.is_valid()) { v.template node<ipr::Overload>(ovl.get()); v.typed(ovl.get(), nullptr); }
               v.typed(sc, nullptr == nullptr ? &sc.type() : nullptr); return; }
-      ZCASE { impl::Mapping* m = lx.make_mapping(*w.reg, Mapping_level{ 1 }); m->param(w.n(), w.t()); const ipr::Region& r = m->parameters().region(); v.template node<ipr::Region>(r); const ipr::Scope& sc = r.bindings(); v.template node<ipr::Scope>(sc);
+      ZCASE { v.generative(); impl::Mapping* m = lx.make_mapping(*w.reg, Mapping_level{ 1 }); m->param(w.n(), w.t()); const ipr::Region& r = m->parameters().region(); v.template node<ipr::Region>(r); const ipr::Scope& sc = r.bindings(); v.template node<ipr::Scope>(sc);
               auto ovl = sc[m->parameters().elements().position(0)->name()]; v.operands(ovl.is_valid()); if (ovl.is_valid()) v.template node<ipr::Overload>(ovl.get()); return; }
-      ZCASE { impl::Module* mod = new impl::Module(lx); impl::Module_unit* u = mod->make_unit();
+      ZCASE { impl::Module* mod = w.own(new impl::Module(lx)); impl::Module_unit* u = mod->make_unit();
               v.template node<ipr::Translation_unit>(w.unit); v.template node<ipr::Module_unit>(*u); v.template node<ipr::Interface_unit>(static_cast<const ipr::Module&>(*mod).interface_unit()); v.template node<ipr::Module>(*mod);
               v.operands(same(static_cast<const ipr::Module_unit&>(*u).parent_module(), *mod)); return; }
       if (total) *total = k;
@@ -390,6 +403,6 @@ namespace zoo {
 #endif
 
 namespace zoo {
-   struct Null_visitor { template<class I> void node(const I&) { } void operands(bool) { } template<class N> void typed(const N&, const ipr::Type*) { } };
-   inline unsigned count() { World* w = new World; Null_visitor nv; unsigned total = 0; build(*w, ~0u, nv, &total); return total; }
+   struct Null_visitor { void generative() { } template<class I> void node(const I&) { } void operands(bool) { } template<class N> void typed(const N&, const ipr::Type*) { } };
+   inline unsigned count() { World* w = new World; Null_visitor nv; unsigned total = 0; build(*w, ~0u, nv, &total); delete w; return total; }
 }
